@@ -4,7 +4,9 @@ set -e
 cd "$(dirname "$0")"
 export CARGO_NET_OFFLINE=true
 mkdir -p .work evidence replays
-for e in airsym; do
-  cp /repo/Cargo.lock engines/$e/Cargo.lock
-  (cd engines/$e && CARGO_TARGET_DIR=/verif/.work/target/$e cargo build 2>&1 | tail -2)
-done
+cp /repo/Cargo.lock engines/airsym/Cargo.lock
+(cd engines/airsym && CARGO_TARGET_DIR=/verif/.work/target/airsym cargo build 2>&1 | tail -2)
+cp /repo/Cargo.lock engines/replay/Cargo.lock
+(cd engines/replay && CARGO_TARGET_DIR=/verif/.work/target/replay cargo build --release 2>&1 | tail -2)
+# warm the MIR dump's build cache (dependencies of miden-processor under the nightly toolchain)
+(cd /repo/processor && CARGO_TARGET_DIR=/verif/.work/target/mir cargo +nightly rustc --offline --lib --features internals -- -Zunpretty=mir -C debug-assertions=off -C overflow-checks=on > /dev/null 2>&1 || true)
